@@ -13,6 +13,7 @@ use tz::TimeZone;
 
 #[derive(Default, Clone, Copy)]
 pub struct Tally {
+    pub v2_bases: u64,
     pub evals: u64,
     pub accepted: u64,
     pub rejected: u64,
@@ -26,6 +27,7 @@ impl Tally {
         self.rejected += o.rejected;
         self.digest = self.digest.wrapping_add(o.digest);
         self.corrupt += o.corrupt;
+        self.v2_bases += o.v2_bases;
         self
     }
 }
@@ -248,15 +250,23 @@ fn sweep_synth(rec: &Recorder, thorough: bool) -> Tally {
                             check_file(&g, "v2+ with different version bytes in the two headers", rec, "synth", &mut tl);
                         }
                     }
-                    if footer.len() == 4 && (thorough || (s.pool + s.ind + s.times) % 3 == 0) {
+                    // corruption classes on v2+ files: base = the file with an empty footer and the one with a fixed-offset footer
+                    // (the base must be accepted: checked inside)
+                    if (footer.is_empty() || footer == b"<+0330>-3:30") && (thorough || (s.pool + s.ind + s.times) % 3 == 0) {
+                        let before = tl.corrupt;
                         corruptions(&f, version, &other, Some(&main), rec, &mut tl);
+                        if tl.corrupt > before {
+                            tl.v2_bases += 1;
+                        }
                     }
                 }
             }
             tl
         })
         .reduce(Tally::default, Tally::merge);
-    rec.sub("synthesised", json!({"shapes": shapes.len(), "files": t.evals - t.corrupt, "corrupted_files": t.corrupt, "accepted": t.accepted, "rejected": t.rejected}));
+    rec.sub("synthesised", json!({"shapes": shapes.len(), "files": t.evals - t.corrupt, "corrupted_files": t.corrupt, "v2_or_v3_base_files_corrupted": t.v2_bases, "accepted": t.accepted, "rejected": t.rejected}));
+    // vacuity guard: the corruption classes must have run on v2+ base files too
+    assert!(t.v2_bases > 100, "no v2+ base file was accepted: the v2+ corruption classes did not run");
     t
 }
 
